@@ -19,7 +19,9 @@ THEOREMS = ["CKT.C01." + t for t in ["expansion", "blocks_factor", "pair_prod_fa
                                         "SGate.exact", "supported_round_trip",
                                         # measured subexperiments: signed sums over fresh bits + Walsh identity => decoded distribution = E_p
                                         "linRun_eq_runOps", "decoded_eq", "reconstruction_correct"]] + \
-           ["CKT.Sem.signed_run", "CKT.Sem.decode_full", "CKT.Sem.meas_signed", "CKT.Sem.decode_blocks"]
+           ["CKT.Sem.signed_run", "CKT.Sem.decode_full", "CKT.Sem.meas_signed", "CKT.Sem.decode_blocks",
+            # ... and that decoded number is what C06's accumulator loop returns on the exact quasi-distribution of the subexperiment
+            "CKT.C06Sem.estimator_is_signedSum", "CKT.C01PTM.decoded_is_estimator"]
 RULE = ("cut problems on 1-5 qubits, 1-4 partitions, 0-2 cut gates of every family (incl. KAK gates), idle qubits, explicit and automatic labels, "
         "separated and single-circuit call forms, duplicate / identity observables; every subexperiment evaluated exactly by the harness's own "
         "density-matrix simulator; compared: the model's reconstruction (exact rationals) of those distributions with the implementation's, and "
